@@ -29,9 +29,9 @@ T1 = '_http._tcp.local.'
 T2 = '_ipp._tcp.local.'
 IA = 'Alpha._http._tcp.local.'
 IB = 'beta._http._tcp.local.'
-IC = 'gamma._ipp._tcp.local.'
+IC = 'Gamma Straße._ipp._tcp.local.'       # (lower() keeps the sharp s, casefold() would not)
 H1 = 'h1.local.'
-H2 = 'H2.local.'
+H2 = 'H2-Straße.local.'
 HW = 'www.local.'
 TTL_CAP = 1000000          # seconds; what the trace carries for larger TTLs (TLC integers are 32 bit, the contract multiplies by 1000)
 
@@ -46,14 +46,14 @@ VOCAB: Dict[int, tuple] = {
     2: (T1, wire.T_PTR, 1, IB, [T1], [IB, 'Beta._http._tcp.local.']),
     3: (T2, wire.T_PTR, 1, IC, [T2], [IC]),
     4: (IA, wire.T_SRV, 1, (0, 0, 80, H1), [IA, 'alpha._http._tcp.local.'], [H1, 'H1.local.']),
-    5: (IA, wire.T_SRV, 1, (0, 0, 81, H2), [IA, 'ALPHA._HTTP._TCP.LOCAL.'], [H2, 'h2.local.']),
+    5: (IA, wire.T_SRV, 1, (0, 0, 81, H2), [IA, 'ALPHA._HTTP._TCP.LOCAL.'], [H2, 'h2-straße.local.']),
     6: (IB, wire.T_SRV, 1, (0, 0, 80, H1), [IB], [H1]),
     7: (IA, wire.T_TXT, 1, b'\x03x=1', [IA, 'alpha._http._tcp.local.'], None),
     8: (IA, wire.T_TXT, 1, b'\x03x=2', [IA], None),
     9: (H1, wire.T_A, 1, b'\x0a\x00\x00\x01', [H1, 'H1.LOCAL.'], None),
     10: (H1, wire.T_A, 1, b'\x0a\x00\x00\x02', [H1], None),
     11: (H1, wire.T_AAAA, 1, b'\xfe\x80' + b'\0' * 13 + b'\x01', [H1, 'H1.local.'], None),
-    12: (H2, wire.T_A, 1, b'\x0a\x00\x00\x03', [H2, 'h2.local.'], None),
+    12: (H2, wire.T_A, 1, b'\x0a\x00\x00\x03', [H2, 'h2-straße.local.'], None),
     13: (H1, wire.T_NSEC, 1, (H1, [1]), [H1], None),
     14: (H1, wire.T_HINFO, 1, (b'cpu', b'os'), [H1], None),
     15: (IA, wire.T_TXT, 3, b'\x03x=1', [IA], None),          # same as 7 except for the class
@@ -66,6 +66,14 @@ HOSTS = [H1, H2]
 
 def low(s: str) -> str:
     return ''.join(chr(ord(c) + 32) if 'A' <= c <= 'Z' else c for c in s)
+
+
+def up(s: str) -> str:          # ASCII case only (DNS names compare case-insensitively in ASCII: RFC 4343)
+    return ''.join(chr(ord(c) - 32) if 'a' <= c <= 'z' else c for c in s)
+
+
+def swap(s: str) -> str:
+    return ''.join(chr(ord(c) - 32) if 'a' <= c <= 'z' else (chr(ord(c) + 32) if 'A' <= c <= 'Z' else c) for c in s)
 
 
 NAME_ID = {low(n): i + 1 for i, n in enumerate(NAMES)}
@@ -130,7 +138,9 @@ def triple(rec: Any) -> List[int]:
     return [record_id(rec), int(c) if c == int(c) else -999, capttl(ttl) if ttl == int(ttl) else -999]
 
 
-def build_datagram(items: List[dict]) -> bytes:
+def build_datagram(items: List[dict], withq: int = 0) -> bytes:
+    """withq: the response also carries a question section (1: the question of its first record, 2: the same with the QU bit) --
+    responders that echo what they answer, and every legacy unicast response, do (RFC 6762 section 6.7)."""
     answers = []
     for it in items:
         name, t, cls, rd, owner_sp, rd_sp = VOCAB[it['id']]
@@ -142,7 +152,8 @@ def build_datagram(items: List[dict]) -> bytes:
             else:
                 rd = tgt
         answers.append((owner, t, cls | (0x8000 if it.get('fl') else 0), it['ttl'], rd))
-    return wire.build(flags=0x8400, answers=answers)
+    questions = [(answers[0][0], answers[0][1], 1 | (0x8000 if withq == 2 else 0))] if withq and answers else []
+    return wire.build(flags=0x8400, questions=questions, answers=answers)
 
 
 def probe_objects() -> Dict[int, Any]:
@@ -195,7 +206,8 @@ class Recorder:
         did = self.did.setdefault(data, len(self.did) + 1)
         items = self.items_by_data.get(data)
         if items is not None:
-            self.ev('recv', did=did, q=False, qu=False, items=[{'id': it['id'], 'ttl': capttl(it['ttl']), 'fl': bool(it.get('fl'))}
+            # (a response that echoes a QU question is exempt from the duplicate guard like a query with one: finding D9)
+            self.ev('recv', did=did, q=False, qu=self._has_qu(data), items=[{'id': it['id'], 'ttl': capttl(it['ttl']), 'fl': bool(it.get('fl'))}
                                                                for it in items])
         else:
             try:
@@ -205,6 +217,13 @@ class Recorder:
             except wire.WireError:
                 isq, qu = True, False
             self.ev('recv', did=did, q=isq, qu=qu, items=[])
+
+    @staticmethod
+    def _has_qu(data: bytes) -> bool:
+        try:
+            return any(q.cls & 0x8000 for q in wire.parse(data).questions)
+        except wire.WireError:
+            return False
 
     def _on_recv_done(self, e: dict) -> None:
         self._in_recv = False
@@ -244,7 +263,7 @@ class Recorder:
         spell_mismatch = 0
         for n in NAMES:
             a = [triple(r) for r in cache.entries_with_name(n)]
-            b = [triple(r) for r in cache.entries_with_name(n.upper())]
+            b = [triple(r) for r in cache.entries_with_name(up(n))]
             c = [triple(r) for r in cache.async_entries_with_name(low(n))]
             if sorted(a) != sorted(b) or sorted(a) != sorted(c):
                 spell_mismatch += 1
@@ -252,15 +271,15 @@ class Recorder:
         for (nm, t, cls), rr in RR_ID.items():
             spelled = next(x for x in NAMES if low(x) == nm)
             a = [triple(r) for r in cache.get_all_by_details(spelled, t, cls)]
-            b = [triple(r) for r in cache.async_all_by_details(spelled.upper(), t, cls)]
+            b = [triple(r) for r in cache.async_all_by_details(up(spelled), t, cls)]
             if sorted(a) != sorted(b):
                 spell_mismatch += 1
             details += a
-            g = cache.get_by_details(spelled.swapcase(), t, cls)
+            g = cache.get_by_details(swap(spelled), t, cls)
             one.append([rr] + (triple(g) if g is not None else [0, 0, 0]))
         for h in HOSTS:
             a = [triple(r) for r in cache.entries_with_server(h)]
-            b = [triple(r) for r in cache.async_entries_with_server(h.swapcase())]
+            b = [triple(r) for r in cache.async_entries_with_server(swap(h))]
             if sorted(a) != sorted(b):
                 spell_mismatch += 1
             server += [[NAME_ID[low(h)]] + x for x in a]
@@ -464,7 +483,7 @@ class Recorder:
                 await net.sleep_until(st['t'])
                 continue
             if op == 'recv':
-                data = build_datagram(st['items'])
+                data = build_datagram(st['items'], st.get('withq', 0))
                 self.items_by_data[data] = st['items']
                 self.host.inject(data, src=st.get('src', '10.0.0.9'))
             elif op in ('ladd', 'lrem'):
@@ -622,7 +641,7 @@ def gen_scenario(rng: random.Random, sid: str, n_dgrams: int, with_dups: bool = 
             for it in items:       # one spelling per identity inside one datagram (C04 domain)
                 sp = spell.setdefault(it['id'], (it['sp'], it['rsp']))
                 it['sp'], it['rsp'] = sp
-        steps.append({'op': 'recv', 'items': items})
+        steps.append({'op': 'recv', 'items': items, 'withq': rng.choice([0, 0, 0, 0, 1, 2])})
         prev_items = items
     t += rng.choice([0, 1000, 10000, 20000, 5000000])
     steps.append({'op': 'at', 't': t})
